@@ -169,6 +169,9 @@ func runC19(w *World) {
 	hc.exact = true
 	w.stepHooks = append(w.stepHooks, hc.stepHook, auditHook(w, func() *Inst { return n.inst }, "C19"))
 	size := []int{30, 60, 120}[w.knob("size", 3)]
+	if w.deep() && w.knob("deep", 3) == 0 {
+		size = 300
+	}
 	prog := w.program("p1", func(r *rand.Rand) []Cmd {
 		g := defaultGenCfg(1)
 		g.keys = []string{"k1", "k2"}
